@@ -273,6 +273,10 @@ func badMsg(c *Ctx) Sx {
 		strconv.Itoa(n - 1 - c.Rng.Intn(4)), strconv.Itoa(n + 1 + c.Rng.Intn(9)), strconv.Itoa(n + 4000 + c.Rng.Intn(9000)),
 		strconv.Itoa(9223372036854775807 - c.Rng.Intn(60))}
 	d := ds[c.Rng.Intn(len(ds))]
+	if c.Rng.Intn(2) == 0 {
+		// a length that misses the trailer by a few bytes: the jump lands just before, inside or just after "SOH 10="
+		d = strconv.Itoa(n + []int{-4, -3, -2, -1, 1, 2, 3, 4, 5, 6}[c.Rng.Intn(10)])
+	}
 	return L(Sym("m"), Str("FIX.4.2"), Str(d), Bytes(body), Str("000"))
 }
 
